@@ -1336,7 +1336,6 @@ tp_thread_proc(void *data) {
 	syslog(LOG_INFO, "%s thread exited...", thr_name);
 	pthread_setspecific(tp_tls_key_tpt, NULL);
 	pthread_self_name_set(NULL);
-	memset(&tpt->pt_id, 0x00, sizeof(pthread_t));
 	LIBLCB_VERIF_YIELD("tp_thread_proc.exiting");
 	tpt->state = TP_THREAD_STATE_STOP; /* Reset state on exit. */
 	tpt->tp->threads_cnt --;
